@@ -34,6 +34,8 @@ type tcase struct {
 	Conc  int    `json:"conc"`
 }
 
+const patRadix = "radix_min_max_after_delete_prefix"
+
 func fail(i int, msg string, got, want interface{}) rt.Result { return rt.Fail(i, msg, got, want) }
 
 // ---------------------------------------------------------------- rhh
@@ -228,6 +230,8 @@ func runRadix(c *tcase, rng *rand.Rand) rt.Result {
 	t := radix.New()
 	evals := 0
 	nontrivial := false
+	deleted := false // some DeletePrefix removed at least one key
+	var pending *rt.Result
 	for i, s := range c.Steps {
 		var exp struct {
 			Get []struct {
@@ -272,6 +276,9 @@ func runRadix(c *tcase, rng *rand.Rand) rt.Result {
 			if ret.N > 0 && exp.Len > 0 {
 				nontrivial = true
 			}
+			if n > 0 {
+				deleted = true
+			}
 		default:
 			return rt.Infra("radix: unknown op " + s.A)
 		}
@@ -292,14 +299,37 @@ func runRadix(c *tcase, rng *rand.Rand) rt.Result {
 		if t.Len() != exp.Len {
 			return fail(i, "radix: Len after "+s.A, t.Len(), exp.Len)
 		}
+		// Known finding radix_min_max_after_delete_prefix: DeletePrefix empties the matched node but leaves it linked in
+		// its parent, and Minimum/Maximum give up when the left-/rightmost path ends in such a node. Predicate: an
+		// earlier (or this) DeletePrefix removed at least one key, the tree is not empty, and Minimum/Maximum reports
+		// "no entry". Such a failure is remembered and the remaining observations of the case are still compared.
 		mk, mv, mok := t.Minimum()
 		if mok != exp.Has || (mok && (!bytes.Equal(mk, conc(exp.Min)) || mv != want[string(conc(exp.Min))])) {
-			return fail(i, fmt.Sprintf("radix: Minimum after %s: got (%q,%d,%v), smallest key is %v (present: %v)", s.A, mk, mv, mok, exp.Min, exp.Has), fmt.Sprintf("%q %v", mk, mok), fmt.Sprintf("%q %v", conc(exp.Min), exp.Has))
+			r := fail(i, fmt.Sprintf("radix: Minimum after %s: got (%q,%d,%v), smallest key is %v (present: %v)", s.A, mk, mv, mok, exp.Min, exp.Has), fmt.Sprintf("%q %v", mk, mok), fmt.Sprintf("%q %v", conc(exp.Min), exp.Has))
+			if deleted && exp.Has && !mok {
+				r.Patterns = []string{patRadix}
+				if pending == nil {
+					pending = &r
+				}
+			} else {
+				return r
+			}
 		}
 		xk, xv, xok := t.Maximum()
 		if xok != exp.Has || (xok && (!bytes.Equal(xk, conc(exp.Max)) || xv != want[string(conc(exp.Max))])) {
-			return fail(i, fmt.Sprintf("radix: Maximum after %s: got (%q,%d,%v), largest key is %v (present: %v)", s.A, xk, xv, xok, exp.Max, exp.Has), fmt.Sprintf("%q %v", xk, xok), fmt.Sprintf("%q %v", conc(exp.Max), exp.Has))
+			r := fail(i, fmt.Sprintf("radix: Maximum after %s: got (%q,%d,%v), largest key is %v (present: %v)", s.A, xk, xv, xok, exp.Max, exp.Has), fmt.Sprintf("%q %v", xk, xok), fmt.Sprintf("%q %v", conc(exp.Max), exp.Has))
+			if deleted && exp.Has && !xok {
+				r.Patterns = []string{patRadix}
+				if pending == nil {
+					pending = &r
+				}
+			} else {
+				return r
+			}
 		}
+	}
+	if pending != nil {
+		return *pending
 	}
 	return rt.Result{OK: true, Evals: evals, Nontrivial: nontrivial}
 }
@@ -340,7 +370,7 @@ func idBlocks(style int, rng *rand.Rand) [4][]uint64 {
 	case 5: // mixed: a single id, a short run, a long run near 2^32, a sparse block
 		out[0] = []uint64{65536}
 		for j := uint64(0); j < 70; j++ {
-			out[1] = append(out[1], 65500+j)
+			out[1] = append(out[1], 65466+j) // ends at 65535, the last id of the container before out[0]
 		}
 		for j := uint64(0); j < 9000; j++ {
 			out[2] = append(out[2], 1<<32-9000+j)
